@@ -145,16 +145,33 @@ def run_direction(ctx):
         else:
             res.bad(key, "%s compares in the wrong direction (or something else): receiver from %s: %s, argument is Param.var_type: %s"
                     % (f, src, recv_ok, arg_ok), b.where(c.line))
-    # arity test present in both
+    # arity test present in both, and it compares the two lengths as given: `len(params) != len(args)`
     for f in ("instruction::function::call::check_args_with_params", "instruction::function::call::create_from_variables"):
         b = lib.body(f)
         if b is None:
             continue
-        n = len(aggregates(b, "errors::error::Error", "WrongNumberOfArguments"))
-        if n == 1:
-            res.ok("arity:" + f, b.where())
-        else:
+        aggs = aggregates(b, "errors::error::Error", "WrongNumberOfArguments")
+        if len(aggs) != 1:
             res.bad("arity:" + f, "%s no longer rejects a wrong number of arguments" % f, b.where())
+            continue
+        from .guard import controlling_switch
+        sw, _, _ = controlling_switch(b, aggs[0][0])
+        ok = False
+        if sw is not None:
+            dl = op_local(b.blocks[sw]["term"]["discr"])
+            for _, st in b.assigns():
+                if st["place"]["l"] == dl and st["rv"]["k"] == "binop" and st["rv"]["op"] in ("Ne", "Eq"):
+                    srcs = []
+                    for o in (st["rv"]["a"], st["rv"]["b"]):
+                        ds = b.def_sites(op_local(o)) if op_local(o) is not None else []
+                        srcs.append(ds[0][2]["func"].get("fn", {}).get("path", "") if (len(ds) == 1 and ds[0][1] == "call") else "")
+                    if all(x.rsplit("::", 1)[-1] == "len" for x in srcs) and len(srcs) == 2:
+                        ok = True
+        if ok:
+            res.ok("arity:" + f, b.where(), "WrongNumberOfArguments is guarded by len(params) != len(args)")
+        else:
+            res.bad("arity:" + f, "%s does not compare the number of parameters with the number of arguments as given (two len() "
+                                  "results): surplus or missing arguments may be accepted" % f, b.where())
     # Code::exec builds its own interpreter
     b = lib.body("code::Code::exec")
     if res.anchor(b is not None, "Code::exec"):
